@@ -121,3 +121,23 @@ class Scheduler:
             t.join(self.timeout)
         self.result.steps = self.step
         return self.result
+
+
+def sweep_one_preemption(make_programs, prefix: str, stride: int = 1, limit: int = 4000, start: int = 0):
+    """Run `make_programs()` (-> list of zero-arg callables, built afresh per schedule) once to completion, then once per
+    step k of thread 0 with ONE preemption there (thread 0 is parked at k, the other threads run to completion, thread 0
+    resumes), and likewise with thread 1 parked while thread 0 runs.  Yields (label, RunResult)."""
+    dry = Scheduler(make_programs(), [], prefix).run()
+    yield "sequential", dry
+    n = 0
+    for k in range(start, dry.steps, stride):
+        if n >= limit:
+            break
+        n += 1
+        yield f"park-thread-0@{k}", Scheduler(make_programs(), [(k, 1)], prefix).run()
+    # thread 1 first: start it by preempting thread 0 at its very first step, then park thread 1 at step k, run 0, resume 1
+    for k in range(1 + start, dry.steps, stride):
+        if n >= 2 * limit:
+            break
+        n += 1
+        yield f"park-thread-1@{k}", Scheduler(make_programs(), [(0, 1), (k, 0)], prefix).run()
